@@ -197,8 +197,8 @@ func (P *Program) inlineBoolHelper(call *ssa.Call, k int, depth int) *formula {
 // inlineGuardedReturn: bool result #k of the helper is false on every return but ret: at the call it is
 // (path condition of ret) && (the value returned there), read in the calling context of this call.
 func (P *Program) inlineGuardedReturn(callee *ssa.Function, call *ssa.Call, ret *ssa.Return, k int, depth int) *formula {
-	if callee.Parent() != nil || len(callee.AnonFuncs) > 0 {
-		return nil
+	if callee.Parent() != nil || len(callee.AnonFuncs) > 0 || len(naturalLoops(callee)) > 0 {
+		return nil // a search loop's "found" is an existential over iterations, not one path condition: judged by outcomes
 	}
 	if P.inlineBusy == nil {
 		P.inlineBusy = map[*ssa.Function]bool{}
